@@ -340,7 +340,8 @@ inductive PV where
   | none
   | bool (b : Bool)
   | int (i : Int)
-  | float (val : Rat) (bits : Nat)   -- binary64 value (used as latency) and its '>f' pattern (used as argument)
+  | float (val : Rat) (bits : Nat)   -- binary64 value (used as latency) and its '>f' pattern (used as argument);
+                                     -- bits = 2^32: no pattern — a finite value beyond the binary32 range, see `f32Overflows`
   | str (s : Bytes)                  -- a `str`, as its UTF-8 encoding
   | strBad                           -- a `str` that `encode('utf-8')` rejects
   | bytes (b : Bytes)                -- bytes / bytearray / memoryview
@@ -352,6 +353,7 @@ deriving Repr
 inductive Err where
   | valueError | typeError | indexError | unicodeEncode
   | msgBuild | bundleBuild          -- OscMessageBuildError / OscBundleBuildError
+  | overflow                        -- OverflowError: `struct.pack('>f', x)` for a finite x beyond the binary32 range
   | parse (e : DErr)                -- raised by the builder's parse of its own output
   | notModelled
 deriving Repr, DecidableEq
@@ -368,6 +370,14 @@ inductive WArg where
   | arrClose
 deriving Repr
 
+/-- `struct.pack('>f', x)` raises OverflowError exactly when the finite binary64 `x` rounds (to nearest, ties to
+    even) to a binary32 infinity: |x| ≥ 2^128 − 2^103, the midpoint between the largest binary32 and 2^128 -/
+def f32Overflows (v : Rat) : Bool :=
+  decide (v ≥ 340282356779733661637539395458142568448) || decide (v ≤ -340282356779733661637539395458142568448)
+
+/-- the pattern of a float argument as the model uses it: none (2^32) when the exact value overflows -/
+def f32Pattern (v : Rat) (bits : Nat) : Nat := if f32Overflows v then 4294967296 else bits
+
 def WArg.tag : WArg → UInt8
   | .int _ => 0x69 | .float _ => 0x66 | .str _ => 0x73 | .strBad => 0x73 | .blob _ => 0x62
   | .midi .. => 0x6D | .arrOpen => 0x5B | .arrClose => 0x5D
@@ -383,7 +393,7 @@ def byteOfInt (i : Int) : UInt8 := UInt8.ofNat (i % 256).toNat
 
 def writeArg : WArg → Except Err Bytes
   | .int i => if -2147483648 ≤ i ∧ i < 2147483648 then .ok (be32 (ofInt32 i)) else .error .msgBuild
-  | .float bits => .ok (be32 bits)
+  | .float bits => if bits < 4294967296 then .ok (be32 bits) else .error .overflow
   | .str s => if hasNul s then .error .msgBuild else .ok (writeString s)
   | .strBad => .error .msgBuild
   | .blob b =>
